@@ -617,6 +617,470 @@ theorem open_R {A : Allocator} (cfg : Cfg) (c : Conn A) (hq : sessionOpen c.sess
     R (step cfg c (.openS exch early none il steps)).2 (some ⟨exch, none, logItems il, steps, false, false⟩) := by
   simp [step, hq, R, SessRel, inlLogs, leOnly_logItems]
 
+/-! ### C. accounting -/
+
+/-- world-level invariant against an explicit list of outstanding references -/
+structure WInv {A : Allocator} (L : AllocLaws A) (w : World A) (rs : List Hnd) : Prop where
+  ok : L.Ok w.a
+  acc : (A.live w.a).Perm (rs.map Hnd.region)
+  intact : ∀ h ∈ rs, Intact w.mem h
+
+theorem winv_perm {A : Allocator} {L : AllocLaws A} {w : World A} {rs rs' : List Hnd} (h : WInv L w rs)
+    (p : rs.Perm rs') : WInv L w rs' :=
+  ⟨h.ok, h.acc.trans (p.map _), fun x hx => h.intact x (p.mem_iff.mpr hx)⟩
+
+theorem putHnd_inl {A : Allocator} (cfg : Cfg) (w : World A) (b : Batch) (h : put cfg w b = (.inl (.data b), w)) :
+    putHnd cfg w b = none := by
+  simp [putHnd, h]
+
+theorem putHnd_ptr {A : Allocator} (cfg : Cfg) (w w' : World A) (b : Batch) (o n : Nat)
+    (h : put cfg w b = (.ptr o n, w')) : putHnd cfg w b = some ⟨o, n, w.nextW, b⟩ := by
+  simp [putHnd, h]
+
+/-- `maybe_write_to_shm` keeps the invariant, with the new handle (if any) outstanding; the new region is disjoint
+from every referenced one, so nothing referenced is overwritten -/
+theorem winv_put {A : Allocator} (L : AllocLaws A) (cfg : Cfg) (hneed : ∀ b, 0 < cfg.need b) (w : World A)
+    (rs : List Hnd) (b : Batch) (h : WInv L w rs) : WInv L (put cfg w b).2 ((putHnd cfg w b).toList ++ rs) := by
+  rcases put_cases cfg w b with e | ⟨o, a', ha, e⟩
+  · rw [putHnd_inl cfg w b e, e]; simpa using h
+  · rw [putHnd_ptr cfg w _ b o _ e, e]
+    obtain ⟨hok, hperm, hdis⟩ := L.alloc_spec w.a (cfg.need b) o a' h.ok (hneed b) ha
+    refine ⟨hok, ?_, ?_⟩
+    · simp only [Option.toList, List.singleton_append, List.map_cons, Hnd.region]
+      exact hperm.trans (List.Perm.cons _ h.acc)
+    · intro x hx
+      simp only [Option.toList, List.singleton_append, List.mem_cons] at hx
+      rcases hx with rfl | hx
+      · intro i hi
+        simp only [Mem.write]
+        simp only at hi
+        simp [hi]
+      · intro i hi
+        have hmem : x.region ∈ A.live w.a := h.acc.mem_iff.mpr (List.mem_map_of_mem hx)
+        have hd := hdis _ hmem
+        simp only [Disjoint, Hnd.region] at hd
+        have := h.intact x hx i hi
+        simp only [Mem.write]
+        rw [if_neg (by omega)]
+        exact this
+
+theorem winv_free_head {A : Allocator} (L : AllocLaws A) (w : World A) (h : Hnd) (rs : List Hnd)
+    (hw : WInv L w (h :: rs)) : WInv L (w.free (some h)) rs := by
+  have hmem : (h.off, h.len) ∈ A.live w.a := hw.acc.mem_iff.mpr (by simp [Hnd.region])
+  obtain ⟨hok, hperm⟩ := L.free_spec w.a h.off h.len hw.ok hmem
+  refine ⟨hok, ?_, ?_⟩
+  · have : ((h.off, h.len) :: A.live (A.free w.a h.off)).Perm ((h.off, h.len) :: rs.map Hnd.region) := by
+      have := hperm.symm.trans hw.acc
+      simpa [Hnd.region] using this
+    exact (List.perm_cons _).mp this
+  · intro x hx
+    exact hw.intact x (List.mem_cons_of_mem _ hx)
+
+theorem winv_free_opt {A : Allocator} (L : AllocLaws A) (w : World A) (h : Option Hnd) (rs : List Hnd)
+    (hw : WInv L w (h.toList ++ rs)) : WInv L (w.free h) rs := by
+  cases h with
+  | none => simpa using hw
+  | some h => exact winv_free_head L w h rs (by simpa using hw)
+
+/-! #### what a read of one `process()` call's output returns -/
+
+def isLog : Item → Bool
+  | .log _ => true
+  | _ => false
+
+def logsOnly (l : List Item) : Bool := l.all isLog
+
+/-- logs, then either nothing, or one data batch followed by logs, or an error followed by logs / errors -/
+def good : List Item → Bool
+  | [] => true
+  | .log _ :: r => good r
+  | .data _ :: r => logsOnly r
+  | .err _ :: r => leOnly r
+  | .token _ :: _ => false
+
+inductive Outcome where
+  | data (b : Batch) (post : List Item)
+  | stop
+
+def outcome : List Item → Outcome
+  | [] => .stop
+  | .log _ :: r => outcome r
+  | .data b :: r => .data b r
+  | _ => .stop
+
+/-- the handle `putItems` creates (for the one data batch, if it is routed) -/
+def itemsHnd {A : Allocator} (cfg : Cfg) (w : World A) (its : List Item) : Option Hnd :=
+  match outcome its with
+  | .data b _ => putHnd cfg w b
+  | .stop => none
+
+theorem leOnly_of_logsOnly (l : List Item) (h : logsOnly l = true) : leOnly l = true := by
+  simp only [logsOnly, leOnly, List.all_eq_true] at h ⊢
+  intro x hx
+  have := h x hx
+  cases x <;> simp_all [isLog, isLE]
+
+theorem logsOnly_logItems (ls : List Log) : logsOnly (logItems ls) = true := by
+  simp [logsOnly, logItems, isLog]
+
+theorem good_of_logsOnly (l : List Item) (h : logsOnly l = true) : good l = true := by
+  induction l with
+  | nil => rfl
+  | cons i r ih =>
+    simp only [logsOnly, List.all_cons, Bool.and_eq_true] at h
+    cases i <;> simp_all [good, isLog, logsOnly]
+
+theorem good_append_logs (a : List Log) (r : List Item) (h : good r = true) : good (logItems a ++ r) = true := by
+  induction a with
+  | nil => simpa [logItems] using h
+  | cons l t ih => simpa [logItems, good] using ih
+
+theorem good_stepOutOf (exch : Bool) (rest : List Step) (coerce : Option Exn) :
+    good (Abs.items (stepOutOf exch rest coerce)) = true := by
+  cases coerce with
+  | some e => rfl
+  | none =>
+    simp only [stepOutOf, stepOut]
+    cases exch <;> cases h : (headStep rest).act <;>
+      simp [processExchangeStep, processStep, h, Abs.items, good, leOnly, List.append_assoc, good_append_logs, logsOnly_logItems,
+        good_of_logsOnly]
+
+theorem putItems_world {A : Allocator} (cfg : Cfg) (its : List Item) :
+    ∀ (w : World A), good its = true →
+      (putItems cfg w its).2 = (match outcome its with | .data b _ => (put cfg w b).2 | .stop => w) := by
+  induction its with
+  | nil => intro w _; rfl
+  | cons i r ih =>
+    intro w hg
+    cases i with
+    | log l => simp only [good] at hg; simpa [putItems, outcome] using ih w hg
+    | data b =>
+      simp only [good] at hg
+      simp [putItems, outcome, putItems_leOnly cfg _ r (leOnly_of_logsOnly r hg)]
+    | err e =>
+      simp only [good] at hg
+      simp [putItems, outcome, putItems_leOnly cfg _ r hg]
+    | token p => simp [good] at hg
+
+theorem winv_putItems {A : Allocator} (L : AllocLaws A) (cfg : Cfg) (hneed : ∀ b, 0 < cfg.need b) (w : World A)
+    (rs : List Hnd) (its : List Item) (hg : good its = true) (h : WInv L w rs) :
+    WInv L (putItems cfg w its).2 ((itemsHnd cfg w its).toList ++ rs) := by
+  rw [putItems_world cfg its w hg]
+  unfold itemsHnd
+  cases outcome its with
+  | data b post => exact winv_put L cfg hneed w rs b h
+  | stop => simpa using h
+
+/-- result of the client's read of (unread logs ++ what one iteration wrote) -/
+theorem read_good {A : Allocator} (cfg : Cfg) (hneed : ∀ b, 0 < cfg.need b) (its : List Item) :
+    ∀ (cs : List Item) (w w'' : World A), logsOnly cs = true → good its = true →
+      w''.mem = (putItems cfg w its).2.mem →
+      match outcome its with
+      | .data b post =>
+          ∃ evs, readW w'' (cs.map .inl ++ (putItems cfg w its).1) = (evs, .gotData b (putHnd cfg w b) (post.map .inl)) ∧
+            logsOnly post = true
+      | .stop => ∀ evs b h r, readW w'' (cs.map .inl ++ (putItems cfg w its).1) ≠ (evs, .gotData b h r) := by
+  intro cs
+  induction cs with
+  | cons i t ih =>
+    intro w w'' hcs hg hm
+    simp only [logsOnly, List.all_cons, Bool.and_eq_true] at hcs
+    have ht : logsOnly t = true := by simpa [logsOnly] using hcs.2
+    have := ih w w'' ht hg hm
+    cases i with
+    | log l =>
+      simp only [List.map_cons, List.cons_append, readW, recv]
+      cases ho : outcome its with
+      | data b post =>
+        simp only [ho] at this
+        obtain ⟨evs, e, hp⟩ := this
+        exact ⟨.log l :: evs, by simp [e], hp⟩
+      | stop =>
+        simp only [ho] at this
+        intro evs b h r hcontra
+        cases hrd : readW w'' (t.map .inl ++ (putItems cfg w its).1) with
+        | mk e1 e2 =>
+          rw [hrd] at hcontra
+          simp only [Prod.mk.injEq] at hcontra
+          exact this e1 b h r (by rw [hrd, hcontra.2])
+    | data b => simp [isLog] at hcs
+    | err e => simp [isLog] at hcs
+    | token p => simp [isLog] at hcs
+  | nil =>
+    simp only [List.map_nil, List.nil_append]
+    induction its with
+    | nil => intro w w'' _ _ _; simp [outcome, putItems, readW]
+    | cons i r ih2 =>
+      intro w w'' _ hg hm
+      cases i with
+      | log l =>
+        simp only [good] at hg
+        simp only [putItems] at hm ⊢
+        have := ih2 w w'' rfl hg hm
+        simp only [outcome, readW, recv]
+        cases ho : outcome r with
+        | data b post =>
+          simp only [ho] at this
+          obtain ⟨evs, e, hp⟩ := this
+          exact ⟨.log l :: evs, by simp [e], hp⟩
+        | stop =>
+          simp only [ho] at this
+          intro evs b h r' hcontra
+          cases hrd : readW w'' (putItems cfg w r).1 with
+          | mk e1 e2 =>
+            rw [hrd] at hcontra
+            simp only [Prod.mk.injEq] at hcontra
+            exact this e1 b h r' (by rw [hrd, hcontra.2])
+      | data b =>
+        simp only [good] at hg
+        have hle := leOnly_of_logsOnly r hg
+        simp only [putItems, putItems_leOnly cfg _ r hle] at hm ⊢
+        simp only [outcome, readW, recv_put cfg hneed w w'' b hm]
+        exact ⟨_, rfl, hg⟩
+      | err e =>
+        simp only [outcome, putItems, readW, recv]
+        intro evs b h r' hcontra
+        simp at hcontra
+      | token p => simp [good] at hg
+
+/-! #### the connection invariant -/
+
+structure SessOk (s : Sess) : Prop where
+  carry : ∃ cs, s.carry = cs.map .inl ∧ logsOnly cs = true
+  done_prev : s.srvDone = true → s.prevIn = none
+  closed_done : s.closed = true → s.srvDone = true
+  init_done : s.initErr ≠ none → s.srvDone = true
+
+structure Inv {A : Allocator} (L : AllocLaws A) (c : Conn A) : Prop where
+  winv : WInv L c.w (refs c)
+  sessOk : ∀ s, c.sess = some s → SessOk s
+
+theorem clientRefs_snoc (held : List HeldB) (b : Batch) (h : Option Hnd) :
+    clientRefs (held ++ [⟨b, h, false⟩]) = clientRefs held ++ h.toList := by
+  cases h <;> simp [clientRefs, List.filterMap_append]
+
+theorem refs_eq {A : Allocator} (c : Conn A) (s : Sess) (hc : c.sess = some s) :
+    refs c = clientRefs c.held ++ s.prevIn.toList := by
+  simp [refs, serverRefs, hc]
+
+theorem perm3 {α : Type} (a b c : List α) : (a ++ (b ++ c)).Perm (c ++ (a ++ b)) := by
+  have h1 : (a ++ (b ++ c)) = (a ++ b) ++ c := (List.append_assoc a b c).symm
+  rw [h1]
+  exact List.perm_append_comm
+
+/-- the client part of a tick / exchange keeps the invariant.  `hnew` = the handle of the data batch the server routed
+in this iteration (if any): the read returns it together with that batch, or returns no batch and there is none -/
+theorem finishRead_inv {A : Allocator} (L : AllocLaws A) (c : Conn A) (w : World A) (s1 : Sess) (isTick : Bool)
+    (seen : List Batch) (rd : List Ev × REnd) (hnew : Option Hnd)
+    (hw : WInv L w (hnew.toList ++ (s1.prevIn.toList ++ clientRefs c.held)))
+    (hdp : s1.srvDone = true → s1.prevIn = none) (hcl : s1.closed = false) (hie : s1.initErr = none)
+    (hrd : (∃ evs b post, rd = (evs, .gotData b hnew (post.map .inl)) ∧ logsOnly post = true) ∨
+           (hnew = none ∧ ∀ evs b h r, rd ≠ (evs, .gotData b h r))) :
+    Inv L (finishRead c w s1 isTick seen rd).2 := by
+  have hclose : Inv L { c with w := (closeSess w s1 []).2.1, sess := some (closeSess w s1 []).2.2 } ∨ hnew ≠ none := by
+    by_cases hn : hnew = none
+    · left
+      subst hn
+      have e2 := (closeSess_nil w s1).2
+      refine ⟨?_, ?_⟩
+      · simp only [refs, serverRefs, e2, Option.toList, List.append_nil]
+        simp only [closeSess, drainW_nil, Gen.C29.finalReleasedBeforeEos, if_true]
+        cases hsd : s1.srvDone with
+        | true =>
+          have := hdp hsd
+          simp only [this, Option.toList, List.nil_append] at hw
+          simpa using hw
+        | false =>
+          simp only [Bool.false_eq_true, if_false]
+          exact winv_free_opt L w s1.prevIn _ (by simpa using hw)
+      · intro s hs
+        simp only [Option.some.injEq] at hs
+        subst hs
+        rw [e2]
+        exact ⟨⟨[], rfl, rfl⟩, fun _ => rfl, fun _ => rfl, fun _ => rfl⟩
+    · exact .inr hn
+  rcases hrd with ⟨evs, b, post, rfl, hp⟩ | ⟨hn, hno⟩
+  · simp only [finishRead]
+    refine ⟨?_, ?_⟩
+    · simp only [refs, serverRefs, clientRefs_snoc]
+      refine winv_perm hw ?_
+      have := perm3 hnew.toList s1.prevIn.toList (clientRefs c.held)
+      refine this.trans ?_
+      simp only [List.append_assoc]
+      exact List.Perm.refl _
+    · intro s hs
+      simp only [Option.some.injEq] at hs
+      subst hs
+      exact ⟨⟨post, rfl, hp⟩, hdp, by simp [hcl], by simp [hie]⟩
+  · rcases hclose with hclose | hcontra
+    · obtain ⟨evs, e⟩ := rd
+      cases e with
+      | gotData b h r => exact absurd rfl (hno evs b h r)
+      | raised => simpa [finishRead] using hclose
+      | eos =>
+        cases isTick with
+        | true => simpa [finishRead] using hclose
+        | false =>
+          simp only [finishRead, Bool.false_eq_true, if_false]
+          subst hn
+          refine ⟨?_, ?_⟩
+          · simp only [refs, serverRefs]
+            refine winv_perm hw ?_
+            simpa using List.perm_append_comm
+          · intro s hs
+            simp only [Option.some.injEq] at hs
+            subst hs
+            exact ⟨⟨[], rfl, rfl⟩, hdp, by simp [hcl], by simp [hie]⟩
+    · exact absurd hn hcontra
+
+/-- the input side: the client offers its batch to the segment, the server resolves it -/
+theorem pin_inv {A : Allocator} (L : AllocLaws A) (cfg : Cfg) (hneed : ∀ b, 0 < cfg.need b) (w : World A)
+    (rs : List Hnd) (inp : Option Batch) (h : WInv L w rs) :
+    WInv L (pinOf cfg w inp).2 ((recv (pinOf cfg w inp).2 (pinOf cfg w inp).1).2.toList ++ rs) := by
+  cases inp with
+  | none => simpa [pinOf, recv] using h
+  | some b =>
+    simp only [pinOf, recv_put cfg hneed w _ b rfl]
+    exact winv_put L cfg hneed w rs b h
+
+/-- draining a pointer input frees exactly the region the sender allocated for it -/
+theorem drainInput_eq {A : Allocator} (cfg : Cfg) (hneed : ∀ b, 0 < cfg.need b) (w : World A) (inp : Option Batch) :
+    drainInput (pinOf cfg w inp).2 (pinOf cfg w inp).1 =
+      (pinOf cfg w inp).2.free (recv (pinOf cfg w inp).2 (pinOf cfg w inp).1).2 := by
+  cases inp with
+  | none => rfl
+  | some b =>
+    simp only [pinOf, recv_put cfg hneed w _ b rfl]
+    rcases put_cases cfg w b with e | ⟨o, a', _, e⟩
+    · rw [putHnd_inl cfg w b e, e]; rfl
+    · rw [putHnd_ptr cfg w _ b o _ e, e]
+      simp [drainInput, Gen.C29.drainFreesPointers, World.free]
+
+theorem serverStep_none {A : Allocator} (cfg : Cfg) (w : World A) (s : Sess) (hIn : Option Hnd) :
+    serverStep cfg w s hIn none =
+      ⟨(putItems cfg (if s.early then (w.free s.prevIn).free hIn else w.free s.prevIn)
+          (Abs.items (stepOut s.exch (headStep s.rest)))).1,
+       (if Abs.isCont (stepOut s.exch (headStep s.rest)) then
+          (putItems cfg (if s.early then (w.free s.prevIn).free hIn else w.free s.prevIn)
+            (Abs.items (stepOut s.exch (headStep s.rest)))).2
+        else ((putItems cfg (if s.early then (w.free s.prevIn).free hIn else w.free s.prevIn)
+            (Abs.items (stepOut s.exch (headStep s.rest)))).2).free (if s.early then none else hIn)),
+       (if Abs.isCont (stepOut s.exch (headStep s.rest)) then (if s.early then none else hIn) else none),
+       !Abs.isCont (stepOut s.exch (headStep s.rest)), s.rest.tail⟩ := by
+  simp only [serverStep, Gen.C29.prevReleasedBeforeProcess, Gen.C29.finalReleasedBeforeEos, Gen.C29.releaseIdempotent,
+    if_true, Bool.and_true]
+  cases hso : stepOut s.exch (headStep s.rest) with
+  | cont items => simp [Abs.items, Abs.isCont]
+  | done items => simp [Abs.items, Abs.isCont]
+  | fail items => simp [Abs.items, Abs.isCont, putItems_leOnly cfg _ items (fail_items _ _ _ hso)]
+
+theorem serverStep_some {A : Allocator} (cfg : Cfg) (w : World A) (s : Sess) (hIn : Option Hnd) (e : Exn) :
+    serverStep cfg w s hIn (some e) = ⟨[.inl (.err e)], (w.free hIn).free s.prevIn, none, true, s.rest⟩ := by
+  simp [serverStep, Gen.C29.coerceFailureReleases, Gen.C29.finalReleasedBeforeEos]
+
+theorem sendOp_inv {A : Allocator} (L : AllocLaws A) (cfg : Cfg) (hneed : ∀ b, 0 < cfg.need b) (c : Conn A) (s : Sess)
+    (inp : Option Batch) (coerce : Option Exn) (hc : c.sess = some s) (hi : Inv L c) :
+    Inv L (sendOp cfg c s inp coerce).2 := by
+  have hs := hi.sessOk s hc
+  have hw0 : WInv L c.w (clientRefs c.held ++ s.prevIn.toList) := by
+    have := hi.winv; rwa [refs_eq c s hc] at this
+  obtain ⟨cs, hcs, hlogs⟩ := hs.carry
+  unfold sendOp
+  by_cases hcl : s.closed = true
+  · simpa [hcl] using hi
+  · simp only [hcl, Bool.false_eq_true, if_false]
+    have hpin := pin_inv L cfg hneed c.w _ inp hw0
+    cases hie : s.initErr with
+    | some e =>
+      simp only []
+      have hprev : s.prevIn = none := hs.done_prev (hs.init_done (by simp [hie]))
+      refine ⟨?_, ?_⟩
+      · simp only [refs, serverRefs, hprev, Option.toList, List.append_nil]
+        rw [drainInput_eq cfg hneed]
+        refine winv_free_opt L _ _ _ ?_
+        simpa [hprev] using hpin
+      · intro s' hs'
+        simp only [Option.some.injEq] at hs'
+        subst hs'
+        exact ⟨⟨[], rfl, rfl⟩, fun _ => hprev, fun _ => rfl, fun _ => rfl⟩
+    | none =>
+      simp only []
+      by_cases hsd : s.srvDone = true
+      · simp only [hsd, if_true]
+        have hprev : s.prevIn = none := hs.done_prev hsd
+        rw [drainInput_eq cfg hneed]
+        have hw1 : WInv L ((pinOf cfg c.w inp).2.free (recv (pinOf cfg c.w inp).2 (pinOf cfg c.w inp).1).2)
+            (clientRefs c.held) := by
+          refine winv_free_opt L _ _ _ ?_
+          simpa [hprev] using hpin
+        refine finishRead_inv L c _ s _ _ _ none (by simpa [hprev] using hw1) hs.done_prev (by simpa using hcl) hie
+          (.inr ⟨rfl, ?_⟩)
+        have := read_good cfg hneed [] cs
+          ((pinOf cfg c.w inp).2.free (recv (pinOf cfg c.w inp).2 (pinOf cfg c.w inp).1).2) _ hlogs rfl rfl
+        simpa [outcome, putItems, hcs] using this
+      · simp only [hsd, Bool.false_eq_true, if_false]
+        cases coerce with
+        | some e =>
+          rw [serverStep_some]
+          simp only []
+          have hw1 : WInv L (((pinOf cfg c.w inp).2.free (recv (pinOf cfg c.w inp).2 (pinOf cfg c.w inp).1).2).free s.prevIn)
+              (clientRefs c.held) := by
+            refine winv_free_opt L _ _ _ ?_
+            refine winv_perm (winv_free_opt L _ _ _ hpin) List.perm_append_comm
+          refine finishRead_inv L c _ _ _ _ _ none (by simpa using hw1) (fun _ => rfl) (by simpa using hcl) rfl
+            (.inr ⟨rfl, ?_⟩)
+          have := read_good cfg hneed [.err e] cs
+            (((pinOf cfg c.w inp).2.free (recv (pinOf cfg c.w inp).2 (pinOf cfg c.w inp).1).2).free s.prevIn) _ hlogs rfl rfl
+          simpa [outcome, putItems, hcs] using this
+        | none =>
+          rw [serverStep_none]
+          simp only []
+          -- the server releases the previous input, optionally (user code) the current one, then writes
+          have hwA : WInv L ((pinOf cfg c.w inp).2.free s.prevIn)
+              ((recv (pinOf cfg c.w inp).2 (pinOf cfg c.w inp).1).2.toList ++ clientRefs c.held) := by
+            refine winv_free_opt L _ _ _ (winv_perm hpin ?_)
+            exact perm3 _ _ _
+          have hwB : WInv L (if s.early then ((pinOf cfg c.w inp).2.free s.prevIn).free
+                (recv (pinOf cfg c.w inp).2 (pinOf cfg c.w inp).1).2 else (pinOf cfg c.w inp).2.free s.prevIn)
+              ((if s.early then none else (recv (pinOf cfg c.w inp).2 (pinOf cfg c.w inp).1).2).toList ++ clientRefs c.held) := by
+            cases s.early with
+            | true => simpa using winv_free_opt L _ _ _ hwA
+            | false => simpa using hwA
+          have hg := good_stepOutOf s.exch s.rest none
+          simp only [stepOutOf] at hg
+          generalize (if s.early then ((pinOf cfg c.w inp).2.free s.prevIn).free
+                (recv (pinOf cfg c.w inp).2 (pinOf cfg c.w inp).1).2 else (pinOf cfg c.w inp).2.free s.prevIn) = wB at hwB ⊢
+          generalize (if s.early then none else (recv (pinOf cfg c.w inp).2 (pinOf cfg c.w inp).1).2) = hIn' at hwB ⊢
+          have hwC := winv_putItems L cfg hneed wB _ _ hg hwB
+          have hrg := read_good cfg hneed (Abs.items (stepOut s.exch (headStep s.rest))) cs wB
+            (if Abs.isCont (stepOut s.exch (headStep s.rest)) then
+              (putItems cfg wB (Abs.items (stepOut s.exch (headStep s.rest)))).2
+            else ((putItems cfg wB (Abs.items (stepOut s.exch (headStep s.rest)))).2).free hIn')
+            hlogs hg (by split <;> simp)
+          rw [hcs]
+          refine finishRead_inv L c _ _ _ _ _ (itemsHnd cfg wB (Abs.items (stepOut s.exch (headStep s.rest)))) ?_ ?_
+            (by simpa using hcl) rfl ?_
+          · -- world invariant after the iteration
+            cases hk : Abs.isCont (stepOut s.exch (headStep s.rest)) with
+            | true => simpa [hk] using hwC
+            | false =>
+              simp only [Bool.false_eq_true, if_false, Option.toList_none, List.nil_append]
+              refine winv_free_opt L _ _ _ (winv_perm hwC ?_)
+              simp only [← List.append_assoc]
+              exact List.Perm.append_right _ List.perm_append_comm
+          · intro hd
+            simp only [Bool.not_eq_true'] at hd
+            simp [hd]
+          · unfold itemsHnd
+            cases ho : outcome (Abs.items (stepOut s.exch (headStep s.rest))) with
+            | data b post =>
+              simp only [ho] at hrg
+              obtain ⟨evs, e, hp⟩ := hrg
+              exact .inl ⟨evs, b, post, e, hp⟩
+            | stop =>
+              simp only [ho] at hrg
+              exact .inr ⟨rfl, fun evs b h r hcontra => hrg evs b h r hcontra⟩
+
 end Aux
 
 end VgiVerif.C29
